@@ -120,6 +120,8 @@ type Interp struct {
 	absOf    map[int]*fterm
 	atomFn   map[int]string
 	atomArgs map[int][2]int
+	curState  *State
+	Intervals bool // propagate float intervals through arithmetic (interp_intervals.go)
 	NonNeg   map[int]bool // atoms known to be >= 0 (answers of distance oracles)
 	Positive map[int]bool // atoms taken to be > 0 (a stated restriction of the rule that sets them)
 	inputLen   int
@@ -1150,6 +1152,18 @@ func (it *Interp) binop(s *State, fr *Frame, x *ssa.BinOp, a, b AV) AV {
 		if !ok {
 			break
 		}
+		if av.Bits != nil || bv.Bits != nil {
+			ab, bb := bitsOfInt(av), bitsOfInt(bv)
+			if (x.Op == token.EQL || x.Op == token.NEQ) && ab != nil && bb != nil {
+				if eq, ok := bitsEqual(ab, bb); ok {
+					return boolOf(eq == (x.Op == token.EQL))
+				}
+			}
+			nb := bitsArith(x.Op, av, bv, unsignedWidth(x.Type()))
+			a2, b2 := av, bv
+			a2.Bits, b2.Bits = nil, nil
+			return attachBits(it.binop(s, fr, x, a2, b2), nb)
+		}
 		if r, ok := it.symBinop(s, x, av, bv); ok {
 			return r
 		}
@@ -1349,6 +1363,7 @@ func (it *Interp) binop(s *State, fr *Frame, x *ssa.BinOp, a, b AV) AV {
 					r.Term = termMul(ta, tb)
 				}
 			}
+			it.intervalArith(s, x.Op, av, bv, r)
 			return r
 		}
 		it.nextSym++
@@ -1360,6 +1375,7 @@ func (it *Interp) binop(s *State, fr *Frame, x *ssa.BinOp, a, b AV) AV {
 				}
 				r.Term = termDiv(ta, tb)
 			}
+			it.intervalArith(s, x.Op, av, bv, r)
 		}
 		return r
 	case BoolV:
@@ -1620,6 +1636,16 @@ func knownEqual(a, b AV) (bool, bool) {
 		y, ok := b.(IntV)
 		if ok && x.Known && y.Known {
 			return x.V == y.V, true
+		}
+		if ok && (x.Bits != nil || y.Bits != nil) {
+			if xb, yb := bitsOfInt(x), bitsOfInt(y); xb != nil && yb != nil {
+				if eq, dec := bitsEqual(xb, yb); dec {
+					return eq, true
+				}
+			}
+		}
+		if ok && !x.Known && !y.Known && x.Sym > 0 && x.Sym == y.Sym && x.A == y.A {
+			return x.B == y.B, true
 		}
 	case FloatV:
 		y, ok := b.(FloatV)
@@ -1981,6 +2007,23 @@ func (it *Interp) convert(s *State, fr *Frame, x *ssa.Convert) AV {
 		if b, ok := dst.(*types.Basic); ok {
 			switch {
 			case b.Info()&types.IsInteger != 0:
+				if v.Bits != nil {
+					nb := v.Bits
+					if w := unsignedWidth(x.Type()); w > 0 {
+						nb = nb.mask(w)
+					} else {
+						nb = nil
+					}
+					v2 := v
+					v2.Bits = nil
+					var r AV
+					if rr, ok := it.symConvert(s, x, v2); ok {
+						r = rr
+					} else {
+						r = it.wrap(v2, x.Type())
+					}
+					return attachBits(r, nb)
+				}
 				if r, ok := it.symConvert(s, x, v); ok {
 					return r
 				}
@@ -2005,6 +2048,12 @@ func (it *Interp) convert(s *State, fr *Frame, x *ssa.Convert) AV {
 			case b.Info()&types.IsInteger != 0:
 				if v.Known && !math.IsNaN(v.V) && math.Abs(v.V) < 1e18 {
 					return it.wrap(intOf(int64(v.V)), x.Type())
+				}
+				if it.Intervals && isUnsigned(x.Type()) {
+					if iv, ok := s.interval(v); ok && iv.Lo > -1 && iv.Hi < 4e9 && unsignedWidth(x.Type()) >= 32 {
+						lo, hi := int64(math.Max(iv.Lo, 0)), int64(iv.Hi)
+						return it.freshSym(s, lo, hi, v.Opq)
+					}
 				}
 				return IntV{Opq: v.Opq}
 			}
